@@ -57,37 +57,49 @@ namespace c06
    template< typename R >
    inline constexpr bool is_named< named< R > > = true;
 
+   // the observation record is the last state (rules like raw_string pass additional states of their own in front)
+   inline obs& last( obs& o )
+   {
+      return o;
+   }
+
+   template< typename T, typename... Ts >
+   inline obs& last( T& /*unused*/, Ts&... ts )
+   {
+      return last( ts... );
+   }
+
    template< typename Rule >
    struct ctl
       : normal< Rule >
    {
-      template< typename ParseInput >
-      static void start( const ParseInput& in, obs& o )
+      template< typename ParseInput, typename... States >
+      static void start( const ParseInput& in, States&&... st )
       {
          if constexpr( is_named< Rule > ) {
-            put( o, 0, in.position(), (unsigned long)( in.current() - in.begin() ) );
+            put( last( st... ), 0, in.position(), (unsigned long)( in.current() - in.begin() ) );
          }
       }
 
-      template< typename ParseInput >
-      static void success( const ParseInput& in, obs& o )
+      template< typename ParseInput, typename... States >
+      static void success( const ParseInput& in, States&&... st )
       {
          if constexpr( is_named< Rule > ) {
-            put( o, 1, in.position(), (unsigned long)( in.current() - in.begin() ) );
+            put( last( st... ), 1, in.position(), (unsigned long)( in.current() - in.begin() ) );
          }
       }
 
-      template< typename ParseInput >
-      static void failure( const ParseInput& in, obs& o )
+      template< typename ParseInput, typename... States >
+      static void failure( const ParseInput& in, States&&... st )
       {
          if constexpr( is_named< Rule > ) {
-            put( o, 2, in.position(), (unsigned long)( in.current() - in.begin() ) );
+            put( last( st... ), 2, in.position(), (unsigned long)( in.current() - in.begin() ) );
          }
       }
 
       // parse_error( msg, in ) stores in.position(); the message formatting is not the subject here
-      template< typename ParseInput >
-      [[noreturn]] static void raise( const ParseInput& in, obs& /*unused*/ )
+      template< typename ParseInput, typename... States >
+      [[noreturn]] static void raise( const ParseInput& in, States&&... /*unused*/ )
       {
          const auto p = in.position();
          throw exc{ p.byte, p.line, p.column, (unsigned long)( in.current() - in.begin() ) };
